@@ -105,6 +105,30 @@ def audit(pid):
     return names, out
 
 
+def coqchk(pid):
+    """thorough tier: re-check the compiled property file and everything it depends on with the independent checker
+    coqchk and read the axioms it lists. The result is cached per state of the sources (all properties share the
+    dependencies, and one coqchk run takes minutes)."""
+    import hashlib, json, time
+    h = hashlib.sha256()
+    for root, _, files in sorted(os.walk(os.path.join(runner.COQ, 'theories'))):
+        for fn in sorted(files):
+            if fn.endswith('.v'):
+                h.update(fn.encode()); h.update(open(os.path.join(root, fn), 'rb').read())
+    cache = os.path.join(runner.BUILD, 'coqchk.%s.%s.json' % (pid, h.hexdigest()[:16]))
+    if os.path.exists(cache):
+        return json.load(open(cache))
+    t0 = time.time()
+    rc, log = runner.sh(['coqchk', '-silent', '-o', '-Q', 'theories', 'Minidyn', 'Minidyn.Properties.%s' % pid], cwd=runner.COQ, timeout=7200)
+    m = re.search(r'\* Axioms:(.*?)\n\s*\n\* Constants/Inductives relying on type-in-type:(.*?)\n\s*\n\* Constants/Inductives relying on unsafe \(co\)fixpoints:(.*?)\n\s*\n\* Inductives whose positivity is assumed:(.*?)\n', log + '\n', re.S)
+    res = dict(exit=rc, seconds=round(time.time() - t0, 1), raw=log[-1500:])
+    if m:
+        res.update(axioms=m.group(1).strip(), type_in_type=m.group(2).strip(), unsafe_fixpoints=m.group(3).strip(), assumed_positivity=m.group(4).strip())
+    res['ok'] = (rc == 0 and bool(m) and all(res[k] == '<none>' for k in ('axioms', 'type_in_type', 'unsafe_fixpoints', 'assumed_positivity')))
+    json.dump(res, open(cache, 'w'))
+    return res
+
+
 def forbidden_axioms(audit_result):
     bad = {}
     for t, a in audit_result.items():
